@@ -169,7 +169,8 @@ func init() {
 			}
 			held += l.totalReaders()
 		}
-		i.path.checkAssert(label+".released", mkBool(held == heldBefore))
+		// same label: natively a leaked lock shows as the same hang
+		i.path.checkAssert(label, mkBool(held == heldBefore))
 		return nil
 	})
 
